@@ -600,7 +600,8 @@ impl<'a> Blitter for ShaderBlendBlitter<'a> {
         let dest_row = (y - self.y) * self.dest_stride;
         let count = (x2 - x1) as usize;
         self.shader.shade_span(x1, y, &mut self.tmp[..], count);
-        (self.blend_fn)(&self.tmp[..],
+        // there is no mask to bound the row, so only hand over the span itself
+        (self.blend_fn)(&self.tmp[..count],
                         &mut self.dest[(dest_row + x1 - self.x) as usize..])
     }
 }
